@@ -473,7 +473,7 @@ func (c *Ctx) convxRun() []*opsVerdict {
 
 func init() {
 	register(&Rule{ID: "CONV.model", Floor: 24,
-		Doc: "Convert of both managers evaluated abstractly for every source × target type on a symbolic payload: requested-type tag, identity for own type / Object, the statement's numeric and temporal conventions as host expressions, the type-safe whitelist and its agreement with the type-unsafe manager, errors elsewhere; every conversion returns its own result object; round trips integer<->long<->double, float->double, boolean<->numeric, integer/long<->time span on boundary constants (0, ±1, around 2^8, 2^16, 2^31, 2^32, ±2^53) succeed and return the original",
+		Doc: "Convert of both managers evaluated abstractly for every source × target type on a symbolic payload: requested-type tag, identity for own type / Object, the statement's numeric and temporal conventions as host expressions, the type-safe whitelist and its agreement with the type-unsafe manager, errors elsewhere; every conversion returns its own result object; round trips integer<->long<->double, float->double, boolean<->numeric, integer/long<->time span and integer/long<->date-time on boundary constants (0, ±1, around 2^8, 2^16, 2^31, 2^32, ±2^53; odd millisecond / second counts of both signs whose scaled value lies beyond 2^53, up to the largest representable) succeed and return the original; the type-safe whitelist run on concrete boundary values (odd whole numbers beyond 2^24 and 2^53, int32 / int64 extremes, float extremes) succeeds for every value and equals the type-unsafe result",
 		Run: func(c *Ctx) []*Obligation {
 			o := newObl("CONV.model")
 			for _, v := range c.convxRun() {
